@@ -118,6 +118,10 @@ func emit(w *bytes.Buffer, v any) {
 		fmt.Fprintf(w, "J%d:%s", len(x), string(x))
 	case string:
 		fmt.Fprintf(w, "S%d:%s", len(x), x)
+	case []byte:
+		// bytes returned by the library are kept as returned until the case is finished, so that a
+		// result that is overwritten by a later call shows
+		fmt.Fprintf(w, "S%d:%s", len(x), x)
 	case []any:
 		fmt.Fprintf(w, "L%d;", len(x))
 		for _, e := range x {
@@ -286,7 +290,7 @@ func historyNoEnv(ops []any) any {
 			if err != nil {
 				outs = append(outs, []any{"outfmt", errv(err)})
 			} else {
-				outs = append(outs, []any{"outfmt", ok(string(r))})
+				outs = append(outs, []any{"outfmt", ok(r)})
 			}
 		case "outw":
 			buf := &bytes.Buffer{}
@@ -303,28 +307,36 @@ func historyNoEnv(ops []any) any {
 	return outs
 }
 
-// concurrent runs the same history from n goroutines at once (fresh Parser each) and returns
-// every result; the environment is set once, before the goroutines start.
+// concurrent runs several histories at once, each from `reps` goroutines (fresh Parser each), and
+// returns, per history, the list of results; the environment is set once, before the goroutines start.
 func concurrent(args []any) any {
 	setEnv(args[0])
-	n := args[2].(int)
-	res := make([]any, n)
-	done := make(chan int, n)
-	for i := 0; i < n; i++ {
-		go func(i int) {
-			defer func() {
-				if e := recover(); e != nil {
-					res[i] = []any{"panic", fmt.Sprintf("%v", e)}
-				}
-				done <- i
-			}()
-			res[i] = historyNoEnv(copyAny(args[1]).([]any))
-		}(i)
+	hs := args[1].([]any)
+	reps := args[2].(int)
+	res := make([][]any, len(hs))
+	done := make(chan int, len(hs)*reps)
+	for h := range hs {
+		res[h] = make([]any, reps)
+		for i := 0; i < reps; i++ {
+			go func(h, i int) {
+				defer func() {
+					if e := recover(); e != nil {
+						res[h][i] = []any{"panic", fmt.Sprintf("%v", e)}
+					}
+					done <- i
+				}()
+				res[h][i] = historyNoEnv(copyAny(hs[h]).([]any))
+			}(h, i)
+		}
 	}
-	for i := 0; i < n; i++ {
+	for i := 0; i < len(hs)*reps; i++ {
 		<-done
 	}
-	return res
+	out := make([]any, len(hs))
+	for h := range hs {
+		out[h] = res[h]
+	}
+	return out
 }
 
 // loadFiles merges the given files (with their layers) and returns the typed dump of Documents().
